@@ -235,9 +235,12 @@ static void cb_common(void *cookie, int kind, int band, int hid)
 			quarantine(kind, c->id);
 	}
 	if (kind == K_WI && band == 2) {
-		/* completion: the item is the caller's again */
+		/* completion: the item is the caller's again (and the scenario
+		 * program may hand it to another thread for re-submission) */
 		o->reg = 0;
 		quarantine(K_WI, c->id);
+		if (memrec_words)
+			sync_log("rel", 2000 + K_WI * 16 + c->id);
 	}
 	if (me == 0 && simk_wait_count() > maxwait && !forced_quit) {
 		forced_quit = 1;
@@ -349,6 +352,21 @@ static void do_op(struct op *p)
 	inapi++;
 	if (memrec_on)
 		tr("\"e\":\"AB\",\"op\":\"%s\",\"o\":%d}", n, id);
+	/* the scenario program hands objects between its threads with proper
+	 * synchronisation: registration happens-before use by another thread,
+	 * use happens-before unregistration */
+	int hk = -1, hreg = 0, huse = 0, hunreg = 0;
+	if (memrec_words) {
+		if (!strncmp(n, "ev_", 3)) hk = K_EV; else if (!strncmp(n, "raw_", 4)) hk = K_RAW;
+		else if (!strncmp(n, "pool_", 5)) hk = K_POOL;
+		else if (!strncmp(n, "submit", 6)) { hk = K_POOL; }
+		hreg = !strcmp(n, "ev_reg") || !strcmp(n, "raw_reg") || !strcmp(n, "pool_create");
+		hunreg = !strcmp(n, "ev_unreg") || !strcmp(n, "raw_unreg") || !strcmp(n, "pool_put");
+		huse = hk >= 0 && !hreg && !hunreg;
+		int hid = !strncmp(n, "submit", 6) ? (int)p->a[1] : id;
+		if (hk >= 0 && huse) sync_log("acq", 2000 + hk * 16 + hid);
+		if (hk >= 0 && hunreg) sync_log("acq", 3000 + hk * 16 + hid);
+	}
 	if (!strcmp(n, "fd_reg") || !strcmp(n, "fd_try")) {
 		OBJ(K_FD);
 		if (o->reg || o->osfd < 0) { skip(n, id); goto out; }
@@ -655,6 +673,8 @@ static void do_op(struct op *p)
 		w->work = wi_work;
 		w->completion = wi_completion;
 		o->reg = 1;
+		if (memrec_words)
+			sync_log("acq", 2000 + K_WI * 16 + id);
 		tr("\"e\":\"SubB\",\"o\":%d,\"p\":%d}", id, pid_);
 		if (po) po->inpost++;
 		if (!strcmp(n, "submit"))
@@ -724,6 +744,11 @@ static void do_op(struct op *p)
 		skip(n, -1);
 	}
 out:
+	if (memrec_words && hk >= 0) {
+		int hid = !strncmp(n, "submit", 6) ? (int)p->a[1] : id;
+		if (hreg) sync_log("rel", 2000 + hk * 16 + hid);
+		if (huse) sync_log("rel", 3000 + hk * 16 + hid);
+	}
 	inapi--;
 #undef OBJ
 }
